@@ -2,187 +2,665 @@ package main
 
 import (
 	"fmt"
+	"go/constant"
 	"go/types"
+	"sort"
+	"strings"
 
 	"golang.org/x/tools/go/ssa"
 )
 
+// SPEC-define-own: ToPropertyDescriptor (8.10.5) followed by [[DefineOwnProperty]] (8.12.9) of an ordinary object, decided
+// on every reachable state of one property and every descriptor shape by abstract evaluation of the two function bodies.
+
 func init() {
-	register(&Rule{ID: "DEFINE-guards", Props: []string{"C07"}, Min: 6,
-		Doc: "P+O: the primitive that adds a key to an object's property table is called only from [[DefineOwnProperty]], and the call that can create a new key is dominated by the test of the extensible flag; the primitive that removes a key is called only from [[Delete]] under a dominating configurable() test; the extensible flag is cleared only by functions bound to Object.preventExtensions / seal / freeze and is never set to true on an existing object - so at every writer a non-extensible object never gains a property and a non-configurable one is never deleted",
-		Run: ruleDefineGuards})
+	register(&Rule{ID: "SPEC-define-own", Props: []string{"C07"}, Min: 8,
+		Doc: "S (abstract evaluation over a finite domain, all reachable states): the bodies of toPropertyDescriptor and objectDefineOwnProperty are evaluated on every descriptor object shape (value absent / same / different / undefined; writable, enumerable, configurable absent / true / false; get and set absent / undefined / same function / other function: 1728 shapes) against every state of one property that is reachable from `absent` by such definitions (explored to a fixpoint on the representation the code itself stores), with the object extensible or not. Script values, functions and the runtime are opaque atoms; the property table, SameValue on atoms and the TypeError constructor are the only modelled callees. For each case the outcome - TypeError or the stored attributes and payload, read back with the code's own writable()/enumerable()/configurable() - equals what ES5 8.10.5 + 8.12.9 prescribe on the decoded state. Since every history of Object.defineProperty calls on one property is a path in that state graph, agreement on every edge is agreement on every history",
+		Run: ruleSpecDefineOwn})
 }
 
-func ruleDefineGuards(c *Ctx, r *R) {
-	write := c.SSAFunc(c.LookupFunc("", "object.writeProperty"))
-	del := c.SSAFunc(c.LookupFunc("", "object.deleteProperty"))
-	if write == nil || del == nil {
-		r.undecided("anchors", "-", "UNRESOLVED (*object).writeProperty / deleteProperty")
+// ---- the ES5 model ----
+
+type pdState struct {
+	kind    string // "absent", "data", "accessor"
+	v       string // data: value atom ("undefined", "V0", "V1")
+	g, s    string // accessor: "undefined", "fn:G0", "fn:G1"
+	w, e, c bool
+}
+
+func (p pdState) String() string {
+	switch p.kind {
+	case "absent":
+		return "absent"
+	case "data":
+		return fmt.Sprintf("data{value:%s writable:%v enumerable:%v configurable:%v}", p.v, p.w, p.e, p.c)
+	}
+	return fmt.Sprintf("accessor{get:%s set:%s enumerable:%v configurable:%v}", p.g, p.s, p.e, p.c)
+}
+
+type pdDesc struct {
+	value   string // "" absent
+	w, e, c int    // 0 absent, 1 true, 2 false
+	get     string // "" absent, "undefined", "fn:G0", "fn:G1"
+	set     string
+}
+
+func tri(n int) string { return [...]string{"", "true", "false"}[n] }
+
+func (d pdDesc) js() string {
+	var parts []string
+	if d.value != "" {
+		parts = append(parts, "value:"+strings.ToLower(d.value))
+	}
+	for _, f := range []struct {
+		n string
+		v int
+	}{{"writable", d.w}, {"enumerable", d.e}, {"configurable", d.c}} {
+		if f.v != 0 {
+			parts = append(parts, f.n+":"+tri(f.v))
+		}
+	}
+	if d.get != "" {
+		parts = append(parts, "get:"+strings.TrimPrefix(d.get, "fn:"))
+	}
+	if d.set != "" {
+		parts = append(parts, "set:"+strings.TrimPrefix(d.set, "fn:"))
+	}
+	return "{" + strings.Join(parts, ", ") + "}"
+}
+
+func (d pdDesc) isAccessor() bool { return d.get != "" || d.set != "" }
+func (d pdDesc) isData() bool     { return d.value != "" || d.w != 0 }
+func (d pdDesc) isGeneric() bool  { return !d.isAccessor() && !d.isData() }
+
+// es5Define: 8.10.5 step 9 + 8.12.9. Returns (typeError, newState).
+func es5Define(cur pdState, extensible bool, d pdDesc) (bool, pdState) {
+	if d.isAccessor() && d.isData() {
+		return true, cur // 8.10.5 step 9
+	}
+	b := func(n int) bool { return n == 1 }
+	orUndef := func(s string) string {
+		if s == "" {
+			return "undefined"
+		}
+		return s
+	}
+	if cur.kind == "absent" {
+		if !extensible {
+			return true, cur
+		}
+		if d.isGeneric() || d.isData() {
+			return false, pdState{kind: "data", v: orUndef(d.value), w: b(d.w), e: b(d.e), c: b(d.c)}
+		}
+		return false, pdState{kind: "accessor", g: orUndef(d.get), s: orUndef(d.set), e: b(d.e), c: b(d.c)}
+	}
+	if d.value == "" && d.w == 0 && d.e == 0 && d.c == 0 && d.get == "" && d.set == "" {
+		return false, cur // step 5
+	}
+	// step 6 is subsumed: applying identical fields changes nothing and none of the rejections below fires
+	if !cur.c {
+		if d.c == 1 {
+			return true, cur
+		}
+		if d.e != 0 && b(d.e) != cur.e {
+			return true, cur
+		}
+	}
+	next := cur
+	switch {
+	case d.isGeneric():
+	case (cur.kind == "data") != d.isData():
+		if !cur.c {
+			return true, cur
+		}
+		if cur.kind == "data" {
+			next = pdState{kind: "accessor", g: "undefined", s: "undefined", e: cur.e, c: cur.c}
+		} else {
+			next = pdState{kind: "data", v: "undefined", w: false, e: cur.e, c: cur.c}
+		}
+	case cur.kind == "data":
+		if !cur.c {
+			if !cur.w && d.w == 1 {
+				return true, cur
+			}
+			if !cur.w && d.value != "" && d.value != cur.v {
+				return true, cur
+			}
+		}
+	default:
+		if !cur.c {
+			if d.set != "" && d.set != cur.s {
+				return true, cur
+			}
+			if d.get != "" && d.get != cur.g {
+				return true, cur
+			}
+		}
+	}
+	if d.value != "" {
+		next.v = d.value
+	}
+	if d.w != 0 {
+		next.w = b(d.w)
+	}
+	if d.get != "" {
+		next.g = d.get
+	}
+	if d.set != "" {
+		next.s = d.set
+	}
+	if d.e != 0 {
+		next.e = b(d.e)
+	}
+	if d.c != 0 {
+		next.c = b(d.c)
+	}
+	return false, next
+}
+
+// ---- the abstract run ----
+
+type defineModel struct {
+	c                                      *Ctx
+	tValue, tProperty, tObject, tGetSet    types.Type
+	tObjPtr                                types.Type
+	fToDesc, fDefine                       *ssa.Function
+	fWritable, fEnumerable, fConfigurable  *ssa.Function
+	kUndefined, kObject, kString, kBoolean int64
+	valueFieldValue, valueFieldKind        int
+}
+
+func (m *defineModel) mkValue(in *absInterp, atom string) aval {
+	v := in.zero(m.tValue).(aStruct)
+	kind := m.kString
+	switch {
+	case atom == "undefined":
+		v.f[m.valueFieldKind] = aInt(m.kUndefined)
+		return v
+	case atom == "true" || atom == "false":
+		kind = m.kBoolean
+	case strings.HasPrefix(atom, "fn:") || atom == "DESC":
+		kind = m.kObject
+	}
+	v.f[m.valueFieldKind] = aInt(kind)
+	if kind == m.kObject {
+		v.f[m.valueFieldValue] = aIface{dyn: m.tObjPtr, v: aAtom{atom}}
+	} else {
+		v.f[m.valueFieldValue] = aIface{dyn: types.Typ[types.String], v: aAtom{atom}}
+	}
+	return v
+}
+
+func (m *defineModel) valueAtom(v aval) string {
+	s, ok := v.(aStruct)
+	if !ok {
+		return fmt.Sprintf("?%T", v)
+	}
+	k, _ := s.f[m.valueFieldKind].(aInt)
+	if int64(k) == m.kUndefined {
+		return "undefined"
+	}
+	if i, ok := s.f[m.valueFieldValue].(aIface); ok {
+		if a, ok := i.v.(aAtom); ok {
+			return a.name
+		}
+	}
+	return fmt.Sprintf("?kind%d", k)
+}
+
+type storedProp struct {
+	value aval // aIface
+	mode  int64
+}
+
+func (sp storedProp) key() string { return fmt.Sprintf("%v|%o", describeAval(sp.value), sp.mode) }
+
+func describeAval(v aval) string {
+	switch x := v.(type) {
+	case aIface:
+		if x.dyn == nil {
+			return "nil"
+		}
+		return typeStr(x.dyn) + ":" + describeAval(x.v)
+	case aStruct:
+		var p []string
+		for _, f := range x.f {
+			p = append(p, describeAval(f))
+		}
+		return "{" + strings.Join(p, ",") + "}"
+	case aArr:
+		var p []string
+		for _, f := range x.e {
+			p = append(p, describeAval(f))
+		}
+		return "[" + strings.Join(p, ",") + "]"
+	case aAtom:
+		return x.name
+	case aRef:
+		return "&" + x.root.name + x.path
+	case aNil:
+		return "nil"
+	}
+	return fmt.Sprintf("%v", v)
+}
+
+// defineWorld: what SPEC-define-own computed, for the rules that continue from its reachable states.
+type defineWorld struct {
+	m                *defineModel
+	in               *absInterp
+	hooks            map[string]absHook
+	states           map[string]*storedProp
+	how              map[string]string
+	fProp, fExt, fRt int
+	decode           func(sp *storedProp) (pdState, string)
+}
+
+var defineWorlds = map[*Ctx]*defineWorld{}
+
+func defineWorldFor(c *Ctx) *defineWorld {
+	if w, ok := defineWorlds[c]; ok {
+		return w
+	}
+	ruleSpecDefineOwn(c, &R{rule: &Rule{ID: "SPEC-define-own"}})
+	return defineWorlds[c]
+}
+
+func isTypeErrorPanic(v aval) bool {
+	if i, ok := v.(aIface); ok {
+		v = i.v
+	}
+	a, ok := v.(aAtom)
+	return ok && a.name == "TypeError"
+}
+
+func ruleSpecDefineOwn(c *Ctx, r *R) {
+	m := &defineModel{c: c}
+	nt := func(name string) types.Type {
+		if t := c.LookupType("", name); t != nil {
+			return t
+		}
+		return nil
+	}
+	m.tValue, m.tProperty, m.tObject, m.tGetSet = nt("Value"), nt("property"), nt("object"), nt("propertyGetSet")
+	if m.tValue == nil || m.tProperty == nil || m.tObject == nil || m.tGetSet == nil {
+		r.undecided("unresolved:types", "-", "UNRESOLVED: Value / property / object / propertyGetSet")
 		return
 	}
-	cf := computeClassFacts(c)
-	// which functions are the generic [[DefineOwnProperty]] / [[Delete]]: the ones installed in those slots of classObject
-	defineImpl, deleteImpl := map[*ssa.Function]bool{}, map[*ssa.Function]bool{}
+	m.tObjPtr = types.NewPointer(m.tObject)
+	fns := map[string]**ssa.Function{
+		"toPropertyDescriptor": &m.fToDesc, "objectDefineOwnProperty": &m.fDefine,
+		"(property).writable": &m.fWritable, "(property).enumerable": &m.fEnumerable, "(property).configurable": &m.fConfigurable,
+	}
 	for _, fn := range c.AllSrcFuncs("") {
-		for _, b := range fn.Blocks {
-			for _, ins := range b.Instrs {
-				if st, ok := ins.(*ssa.Store); ok {
-					if nt, f := fieldOfAddr(st.Addr); nt != nil && nt.Obj().Name() == "objectClass" {
-						if impl, ok := st.Val.(*ssa.Function); ok {
-							switch f.Name() {
-							case "defineOwnProperty":
-								defineImpl[impl] = true
-							case "delete":
-								deleteImpl[impl] = true
-							}
+		if p, ok := fns[ssaFuncName(fn)]; ok {
+			*p = fn
+		}
+	}
+	for name, p := range fns {
+		if *p == nil {
+			r.undecided("unresolved:"+name, "-", "UNRESOLVED: function "+name)
+			return
+		}
+	}
+	kinds := map[string]*int64{"valueUndefined": &m.kUndefined, "valueObject": &m.kObject, "valueString": &m.kString, "valueBoolean": &m.kBoolean}
+	for name, p := range kinds {
+		cst, ok := c.Otto().Types.Scope().Lookup(name).(*types.Const)
+		if !ok {
+			r.undecided("unresolved:"+name, "-", "UNRESOLVED: constant "+name)
+			return
+		}
+		n, _ := constant.Int64Val(cst.Val())
+		*p = n
+	}
+	vst := m.tValue.Underlying().(*types.Struct)
+	m.valueFieldValue, m.valueFieldKind = -1, -1
+	for i := 0; i < vst.NumFields(); i++ {
+		switch vst.Field(i).Name() {
+		case "value":
+			m.valueFieldValue = i
+		case "kind":
+			m.valueFieldKind = i
+		}
+	}
+	ost := m.tObject.Underlying().(*types.Struct)
+	objField := func(name string) int {
+		for i := 0; i < ost.NumFields(); i++ {
+			if ost.Field(i).Name() == name {
+				return i
+			}
+		}
+		return -1
+	}
+	fProp, fExt, fRt := objField("property"), objField("extensible"), objField("runtime")
+	if m.valueFieldValue < 0 || m.valueFieldKind < 0 || fProp < 0 || fExt < 0 || fRt < 0 {
+		r.undecided("unresolved:fields", "-", "UNRESOLVED: fields of Value / object")
+		return
+	}
+
+	// per-case configuration read by the hooks
+	var curDesc pdDesc
+	descField := func(name string) (present bool, atom string) {
+		switch name {
+		case "value":
+			return curDesc.value != "", curDesc.value
+		case "writable":
+			return curDesc.w != 0, tri(curDesc.w)
+		case "enumerable":
+			return curDesc.e != 0, tri(curDesc.e)
+		case "configurable":
+			return curDesc.c != 0, tri(curDesc.c)
+		case "get":
+			return curDesc.get != "", curDesc.get
+		case "set":
+			return curDesc.set != "", curDesc.set
+		}
+		return false, ""
+	}
+	isDescObj := func(v aval) bool { a, ok := v.(aAtom); return ok && a.name == "DESC" }
+	hooks := map[string]absHook{
+		"(*object).hasProperty": func(in *absInterp, call *ssa.CallCommon, args []aval) (aval, bool) {
+			if !isDescObj(args[0]) {
+				return nil, false
+			}
+			p, _ := descField(string(args[1].(aStr)))
+			return aBool(p), true
+		},
+		"(*object).get": func(in *absInterp, call *ssa.CallCommon, args []aval) (aval, bool) {
+			if !isDescObj(args[0]) {
+				return nil, false
+			}
+			p, atom := descField(string(args[1].(aStr)))
+			if !p {
+				atom = "undefined"
+			}
+			return m.mkValue(in, atom), true
+		},
+		"(Value).bool": func(in *absInterp, call *ssa.CallCommon, args []aval) (aval, bool) {
+			return aBool(m.valueAtom(args[0]) == "true"), true
+		},
+		"(Value).isCallable": func(in *absInterp, call *ssa.CallCommon, args []aval) (aval, bool) {
+			return aBool(strings.HasPrefix(m.valueAtom(args[0]), "fn:")), true
+		},
+		"(Value).object": func(in *absInterp, call *ssa.CallCommon, args []aval) (aval, bool) {
+			a := m.valueAtom(args[0])
+			if strings.HasPrefix(a, "fn:") || a == "DESC" {
+				return aAtom{a}, true
+			}
+			return aNil{}, true
+		},
+		"(*runtime).panicTypeError": func(in *absInterp, call *ssa.CallCommon, args []aval) (aval, bool) {
+			return aAtom{"TypeError"}, true
+		},
+		"sameValue": func(in *absInterp, call *ssa.CallCommon, args []aval) (aval, bool) {
+			return aBool(m.valueAtom(args[0]) == m.valueAtom(args[1])), true
+		},
+	}
+
+	decode := func(in *absInterp, sp *storedProp) (pdState, string) {
+		if sp == nil {
+			return pdState{kind: "absent"}, ""
+		}
+		pv := in.zero(m.tProperty).(aStruct)
+		pv.f[0], pv.f[1] = sp.value, aInt(sp.mode)
+		attr := func(fn *ssa.Function) (bool, string) {
+			ret, pan, fail := absRun(in, fn, []aval{pv})
+			if fail != "" || pan != nil {
+				return false, "cannot evaluate " + fn.Name() + ": " + fail
+			}
+			b, _ := ret.(aBool)
+			return bool(b), ""
+		}
+		st := pdState{}
+		var why string
+		if st.w, why = attr(m.fWritable); why != "" {
+			return st, why
+		}
+		if st.e, why = attr(m.fEnumerable); why != "" {
+			return st, why
+		}
+		if st.c, why = attr(m.fConfigurable); why != "" {
+			return st, why
+		}
+		i, ok := sp.value.(aIface)
+		if !ok || i.dyn == nil {
+			return st, "stored payload is a nil interface"
+		}
+		switch {
+		case types.Identical(i.dyn, m.tValue):
+			st.kind, st.v = "data", m.valueAtom(i.v)
+		case types.Identical(i.dyn, m.tGetSet):
+			st.kind, st.w = "accessor", false
+			arr, _ := i.v.(aArr)
+			name := func(v aval) string {
+				switch x := v.(type) {
+				case aNil:
+					return "undefined"
+				case aAtom:
+					return x.name
+				case aRef:
+					return "PLACEHOLDER(&" + x.root.name + ")"
+				}
+				return fmt.Sprintf("?%T", v)
+			}
+			if len(arr.e) == 2 {
+				st.g, st.s = name(arr.e[0]), name(arr.e[1])
+			}
+		default:
+			return st, "stored payload of type " + typeStr(i.dyn)
+		}
+		return st, ""
+	}
+
+	// one step of the implementation
+	type outcome struct {
+		typeError bool
+		hostPanic string
+		fail      string
+		next      *storedProp
+	}
+	in := newAbsInterp(hooks)
+	type convResult struct {
+		out  outcome
+		desc aval
+		done bool
+	}
+	conv := map[pdDesc]*convResult{}
+	step := func(cur *storedProp, extensible bool, d pdDesc) outcome {
+		curDesc = d
+		cr := conv[d]
+		if cr == nil {
+			cr = &convResult{}
+			conv[d] = cr
+			ret, pan, fail := absRun(in, m.fToDesc, []aval{aAtom{"rt"}, m.mkValue(in, "DESC")})
+			switch {
+			case fail != "":
+				cr.out, cr.done = outcome{fail: "toPropertyDescriptor: " + fail}, true
+			case pan != nil && isTypeErrorPanic(pan):
+				cr.out, cr.done = outcome{typeError: true}, true
+			case pan != nil:
+				cr.out, cr.done = outcome{hostPanic: "toPropertyDescriptor: " + describeAval(pan)}, true
+			default:
+				cr.desc = ret
+			}
+		}
+		if cr.done {
+			o := cr.out
+			o.next = cur
+			return o
+		}
+		ret := deepCopy(cr.desc)
+		var pan aval
+		var fail string
+		desc := ret
+		obj := in.zero(m.tObject).(aStruct)
+		pm := newAMap()
+		if cur != nil {
+			pv := in.zero(m.tProperty).(aStruct)
+			pv.f[0], pv.f[1] = deepCopy(cur.value), aInt(cur.mode)
+			pm.m["x"] = pv
+		}
+		obj.f[fProp], obj.f[fExt], obj.f[fRt] = pm, aBool(extensible), aAtom{"rt"}
+		cell := &acell{v: obj, name: "obj"}
+		ret, pan, fail = absRun(in, m.fDefine, []aval{aRef{root: cell}, aStr("x"), desc, aBool(true)})
+		_ = pan
+		if fail != "" {
+			return outcome{fail: "objectDefineOwnProperty: " + fail}
+		}
+		if pan != nil {
+			if isTypeErrorPanic(pan) {
+				return outcome{typeError: true, next: cur}
+			}
+			return outcome{hostPanic: "objectDefineOwnProperty: " + describeAval(pan)}
+		}
+		if ok, _ := ret.(aBool); !bool(ok) {
+			return outcome{fail: "objectDefineOwnProperty returned false with throw=true"}
+		}
+		after := cell.v.(aStruct).f[fProp].(aMap)
+		pv, exists := after.m["x"]
+		if !exists {
+			return outcome{next: nil}
+		}
+		ps := pv.(aStruct)
+		mode, _ := ps.f[1].(aInt)
+		return outcome{next: &storedProp{value: ps.f[0], mode: int64(mode)}}
+	}
+
+	// enumerate descriptors
+	var descs []pdDesc
+	for _, v := range []string{"", "V0", "V1", "undefined"} {
+		for w := 0; w < 3; w++ {
+			for e := 0; e < 3; e++ {
+				for cc := 0; cc < 3; cc++ {
+					for _, g := range []string{"", "undefined", "fn:G0", "fn:G1"} {
+						for _, s := range []string{"", "undefined", "fn:G0", "fn:G1"} {
+							descs = append(descs, pdDesc{value: v, w: w, e: e, c: cc, get: g, set: s})
 						}
 					}
 				}
 			}
 		}
 	}
-	_ = cf
-	for _, fn := range c.AllSrcFuncs("") {
-		for _, b := range fn.Blocks {
-			for _, ins := range b.Instrs {
-				call, ok := ins.(*ssa.Call)
-				if !ok {
+	category := func(cur pdState, d pdDesc) string {
+		switch {
+		case d.isAccessor() && d.isData():
+			return "8.10.5 step 9 (both data and accessor fields)"
+		case cur.kind == "absent":
+			return "8.12.9 steps 3-4 (create)"
+		case d.isGeneric():
+			return "8.12.9 step 8 (generic descriptor on " + cur.kind + " property)"
+		case cur.kind == "data" && d.isAccessor():
+			return "8.12.9 step 9.b (data to accessor)"
+		case cur.kind == "accessor" && d.isData():
+			return "8.12.9 step 9.c (accessor to data)"
+		case cur.kind == "data":
+			return "8.12.9 step 10 (data on data)"
+		}
+		return "8.12.9 step 11 (accessor on accessor)"
+	}
+	type catStat struct {
+		cases int
+		bad   []string
+		fail  string
+	}
+	stats := map[string]*catStat{}
+	states := map[string]*storedProp{"absent": nil}
+	how := map[string]string{"absent": "var o = {}"}
+	work := []string{"absent"}
+	edges := 0
+	decIn := in
+	for len(work) > 0 {
+		k := work[0]
+		work = work[1:]
+		cur := states[k]
+		curSt, why := decode(decIn, cur)
+		if why != "" {
+			r.undecided("decode:"+k, "-", "UNDECIDED: cannot decode the stored representation "+k+": "+why)
+			continue
+		}
+		exts := []bool{true}
+		if cur == nil {
+			exts = []bool{true, false}
+		}
+		for _, ext := range exts {
+			for _, d := range descs {
+				edges++
+				cat := category(curSt, d)
+				st := stats[cat]
+				if st == nil {
+					st = &catStat{}
+					stats[cat] = st
+				}
+				st.cases++
+				wantErr, wantSt := es5Define(curSt, ext, d)
+				out := step(cur, ext, d)
+				setup := how[k]
+				if !ext {
+					setup += "; Object.preventExtensions(o)"
+				}
+				js := fmt.Sprintf("%s; Object.defineProperty(o, 'x', %s)", setup, d.js())
+				switch {
+				case out.fail != "":
+					if st.fail == "" {
+						st.fail = out.fail + " [" + js + "]"
+					}
+					continue
+				case out.hostPanic != "":
+					st.bad = append(st.bad, fmt.Sprintf("`%s` panics in the host (%s)", js, out.hostPanic))
+					continue
+				case out.typeError != wantErr:
+					if wantErr {
+						st.bad = append(st.bad, fmt.Sprintf("`%s` must throw TypeError (property is %s) but is accepted", js, curSt))
+					} else {
+						st.bad = append(st.bad, fmt.Sprintf("`%s` throws TypeError but must succeed (property is %s, expected %s)", js, curSt, wantSt))
+					}
+					continue
+				case out.typeError:
 					continue
 				}
-				callee := call.Call.StaticCallee()
-				site := c.Pos(instrPos(ins))
-				switch callee {
-				case write:
-					key := "writer-call:" + ssaFuncName(fn)
-					if !defineImpl[fn] {
-						r.bad(key, site, fmt.Sprintf("%s adds a property to an object's table directly; only the function installed as [[DefineOwnProperty]] may, because it is the one that checks extensibility and attribute compatibility (ES5 8.12.9)", ssaFuncName(fn)))
-						continue
+				gotSt, why := decode(decIn, out.next)
+				if why != "" {
+					st.bad = append(st.bad, fmt.Sprintf("`%s` stores a property that cannot be read back: %s", js, why))
+					continue
+				}
+				if gotSt != wantSt {
+					st.bad = append(st.bad, fmt.Sprintf("`%s`: property was %s, becomes %s, ES5 requires %s", js, curSt, gotSt, wantSt))
+				}
+				if out.next != nil {
+					nk := out.next.key()
+					if _, seen := states[nk]; !seen {
+						states[nk] = out.next
+						how[nk] = js
+						work = append(work, nk)
 					}
-					// is this call in the "property does not exist" region? (dominated by the !exists side of readProperty's result)
-					// requirement: every call of writeProperty is either dominated by a successful `exists` test or by the extensible test
-					okExt := dominatedByFieldTest(fn, call, "object", "extensible", true)
-					okExists := dominatedByExistsTrue(fn, call)
-					r.check(okExt || okExists, key, site, "dominated by the extensible test (new key) or by exists == true (update)", "writeProperty is reachable for a key that does not exist yet without passing the test of obj.extensible: a non-extensible (sealed, frozen) object can gain a property")
-				case del:
-					key := "deleter-call:" + ssaFuncName(fn)
-					if !deleteImpl[fn] {
-						r.bad(key, site, fmt.Sprintf("%s removes a property from an object's table directly; only the function installed as [[Delete]] may (ES5 8.12.7)", ssaFuncName(fn)))
-						continue
-					}
-					r.check(dominatedByMethodTrue(fn, call, "configurable"), key, site, "dominated by prop.configurable()", "deleteProperty is reachable without a dominating prop.configurable() == true test: a non-configurable property can be deleted")
 				}
 			}
 		}
-	}
-	// extensible writers
-	s := c.Shape()
-	allowed := map[*types.Func]string{}
-	for name, f := range s.BoundOn("Object") {
-		switch name {
-		case "preventExtensions", "seal", "freeze":
-			allowed[f] = "Object." + name
+		if len(states) > 400 {
+			r.undecided("state-space", "-", "UNDECIDED: more than 400 distinct stored representations of one property are reachable")
+			break
 		}
 	}
-	nInit := 0
-	defer func() { r.note("extensible_initialisations_of_fresh_objects", nInit) }()
-	for _, fn := range c.AllSrcFuncs("") {
-		for _, b := range fn.Blocks {
-			for _, ins := range b.Instrs {
-				st, ok := ins.(*ssa.Store)
-				if !ok || !isFieldAddr(st.Addr, "object", "extensible") {
-					continue
-				}
-				site := c.Pos(instrPos(ins))
-				fa := st.Addr.(*ssa.FieldAddr)
-				if _, fresh := fa.X.(*ssa.Alloc); fresh {
-					nInit++
-					continue
-				}
-				v, isC := st.Val.(*ssa.Const)
-				root := fn
-				for root.Parent() != nil {
-					root = root.Parent()
-				}
-				obj, _ := root.Object().(*types.Func)
-				if isC && v.Value != nil && v.Value.String() == "false" {
-					_, ok := allowed[obj]
-					r.check(ok, "extensible-clear:"+ssaFuncName(fn), site, "cleared by "+allowed[obj], fmt.Sprintf("%s clears the extensible flag; only Object.preventExtensions / seal / freeze do so in ES5", ssaFuncName(fn)))
-				} else {
-					r.bad("extensible-set:"+ssaFuncName(fn), site, "the extensible flag of an existing object is assigned something other than the constant false: ES5 8.6.2 - once false it may never become true again")
-				}
-			}
+	var cats []string
+	for k := range stats {
+		cats = append(cats, k)
+	}
+	sort.Strings(cats)
+	for _, cat := range cats {
+		st := stats[cat]
+		site := c.Pos(m.fDefine.Pos())
+		switch {
+		case st.fail != "":
+			r.undecided(cat, site, "UNDECIDED: the abstract evaluator does not model "+st.fail)
+		case len(st.bad) > 0:
+			r.bad(cat, site, fmt.Sprintf("%d of %d cases deviate from ES5; first: %s", len(st.bad), st.cases, st.bad[0]))
+		default:
+			r.ok(cat, site, fmt.Sprintf("%d cases agree with ES5", st.cases))
 		}
 	}
-}
-
-// dominatedByFieldTest: call is dominated by an If on load(<type>.<field>) whose `want` side dominates it, or whose other side never reaches it.
-func dominatedByFieldTest(fn *ssa.Function, use ssa.Instruction, typeName, field string, want bool) bool {
-	for _, b := range fn.Blocks {
-		iff, ok := b.Instrs[len(b.Instrs)-1].(*ssa.If)
-		if !ok {
-			continue
-		}
-		cond, neg := normBool(iff.Cond)
-		a := loadAddr(cond)
-		if a == nil || !isFieldAddr(a, typeName, field) {
-			continue
-		}
-		trueSucc, falseSucc := b.Succs[0], b.Succs[1]
-		if neg {
-			trueSucc, falseSucc = falseSucc, trueSucc
-		}
-		wantSucc, other := trueSucc, falseSucc
-		if !want {
-			wantSucc, other = falseSucc, trueSucc
-		}
-		if len(wantSucc.Preds) == 1 && wantSucc.Dominates(use.Block()) {
-			return true
-		}
-		if b.Dominates(use.Block()) && !reaches(other, use.Block(), map[*ssa.BasicBlock]bool{b: true}) {
-			return true
-		}
+	defineWorlds[c] = &defineWorld{m: m, in: in, hooks: hooks, states: states, how: how, fProp: fProp, fExt: fExt, fRt: fRt,
+		decode: func(sp *storedProp) (pdState, string) { return decode(in, sp) }}
+	r.ok("state-graph", "-", fmt.Sprintf("%d stored representations of one property reachable from absent; %d (state, extensible, descriptor) edges evaluated", len(states), edges))
+	if edges < 3000 {
+		r.undecided("coverage", "-", fmt.Sprintf("UNDECIDED: only %d edges evaluated", edges))
 	}
-	return false
-}
-
-// dominatedByExistsTrue: the call is reachable only when the second result of a preceding readProperty-like lookup (a comma-ok
-// bool extracted from a call) was true: i.e. the `!exists` side of that test does not reach it.
-func dominatedByExistsTrue(fn *ssa.Function, use ssa.Instruction) bool {
-	for _, b := range fn.Blocks {
-		iff, ok := b.Instrs[len(b.Instrs)-1].(*ssa.If)
-		if !ok {
-			continue
-		}
-		ex, ok := iff.Cond.(*ssa.Extract)
-		if !ok || ex.Index != 1 {
-			continue
-		}
-		call, ok := ex.Tuple.(*ssa.Call)
-		if !ok || call.Call.StaticCallee() == nil || call.Call.StaticCallee().Name() != "readProperty" {
-			continue
-		}
-		// true side = exists
-		if b.Dominates(use.Block()) && !reaches(b.Succs[1], use.Block(), map[*ssa.BasicBlock]bool{b: true}) {
-			return true
-		}
-	}
-	return false
-}
-
-// dominatedByMethodTrue: dominated by the true side of an If on a call of method `name`.
-func dominatedByMethodTrue(fn *ssa.Function, use ssa.Instruction, name string) bool {
-	for _, b := range fn.Blocks {
-		iff, ok := b.Instrs[len(b.Instrs)-1].(*ssa.If)
-		if !ok {
-			continue
-		}
-		call, ok := iff.Cond.(*ssa.Call)
-		if !ok || call.Call.StaticCallee() == nil || call.Call.StaticCallee().Name() != name {
-			continue
-		}
-		if len(b.Succs[0].Preds) == 1 && b.Succs[0].Dominates(use.Block()) {
-			return true
-		}
-	}
-	return false
 }
